@@ -363,6 +363,10 @@ def c16_check(tier, replay=None):
                 # values and compiled expressions produced on one thread, searched again and
                 # dropped (possibly the last reference) on another
                 ("sync", "handoff", 13, (0, 5), "0.1"),
+                # one long rendering call with many short ones starting and ending inside it
+                ("sync", "tostr", 15, (0, 6), "0.1"),
+                # skewed variant of badpool: different multi-line texts fail at the same time
+                ("sync", "badskew", 16, (0, 8), "0.1"),
                 ("sync,specialized", "handoff", 14, (0, 3), "0.1"),
                 ("sync,specialized", "race", 4, (0, 3), "0.3"),
                 ("sync,specialized", "general", 6, (0, 4), "0.05")]
@@ -386,7 +390,7 @@ def c16_check(tier, replay=None):
         plan.append(("sync", "manytexts", 230, (0, 8), "0.1"))
         plan.append(("sync", "longrun", 240, (0, 4), "0.1"))
         plan.append(("sync", "bigproj", 250, (0, 8), "0.1"))
-        for k, cls in enumerate(("owner", "rounds", "badpool", "handoff")):
+        for k, cls in enumerate(("owner", "rounds", "badpool", "handoff", "tostr", "badskew")):
             for j, rate in enumerate(("0.1", "0.02", "0.5")):
                 plan.append(("sync", cls, 260 + 3 * k + j, (0, 12), rate))
             plan.append(("sync,specialized", cls, 280 + k, (0, 8), "0.1"))
